@@ -1,0 +1,20 @@
+//go:build verif
+
+// Machine-checked contracts for cmd/leptond (comment-only, tag verif). Only the
+// part of the camera daemon that the recorder's socket protocol (C14) depends on:
+// the camera description is sent under the shared header keys, followed by the
+// blank line that ends the header.
+
+package main
+
+//@ func sendCameraSpecs
+//@   mode permissive
+//@   requires conf != nil && camera != nil && conn != nil
+//@   check [C14] happened("Marshal", 1) ==> ncalls("mapupdate") == 8 && unboxint(callarg("mapupdate", 1, 2)) == callres("ResX", 1) && unboxint(callarg("mapupdate", 2, 2)) == callres("ResY", 1) && unboxint(callarg("mapupdate", 6, 2)) == callres("FPS", 1)
+//@   check [C14] happened("Marshal", 1) ==> callarg("mapupdate", 1, 1) == headers.XResolution && callarg("mapupdate", 2, 1) == headers.YResolution && callarg("mapupdate", 3, 1) == headers.FrameSize && callarg("mapupdate", 4, 1) == headers.Model
+//@   check [C14] happened("Marshal", 1) ==> callarg("mapupdate", 5, 1) == headers.Brand && callarg("mapupdate", 6, 1) == headers.FPS && callarg("mapupdate", 7, 1) == headers.Serial && callarg("mapupdate", 8, 1) == headers.Firmware
+//@   check [C14] happened("Marshal", 1) ==> unboxint(callarg("mapupdate", 3, 2)) == lepton3.BytesPerFrame && unboxstr(callarg("mapupdate", 5, 2)) == lepton3.Brand && unboxstr(callarg("mapupdate", 4, 2)) == callres("GetModel", 1).0
+//@   check [C14] result == nil ==> ncalls("Write") == 2 && callarg("Write", 1, 1) == callres("Marshal", 1).0 && callseq("Marshal", 1) < callseq("Write", 1)
+
+// Both daemons agree on the 5-byte camera-reset marker.
+//@ lemma [C14] clearMarkerAgrees := constof("github.com/TheCacophonyProject/thermal-recorder/cmd/leptond", "clearBuffer") == constof("github.com/TheCacophonyProject/thermal-recorder/cmd/thermal-recorder", "clearBuffer") && constof("github.com/TheCacophonyProject/thermal-recorder/cmd/leptond", "clearBuffer") == "clear" && len("clear") == 5
